@@ -251,6 +251,7 @@ type soloEpSpec struct {
 	V6   bool
 	Typ  CandidateType
 	Prio uint32
+	Text int // how the address is written when signalled: 0 canonical, 1 expanded (IPv6), 2 upper case (IPv6)
 }
 
 func newSoloSim(cfg simAgentConfig, locals []duoSockSpec, eps []soloEpSpec) (*soloSim, error) {
@@ -283,19 +284,28 @@ func (s *soloSim) close() { s.ag.close() }
 
 func (s *soloSim) epCandidate(i int, spec soloEpSpec) Candidate {
 	ap := s.eps[i].pub
+	addrText := ap.Addr().String()
+	if ap.Addr().Is6() {
+		switch spec.Text {
+		case 1:
+			addrText = ap.Addr().StringExpanded()
+		case 2:
+			addrText = strings.ToUpper(addrText)
+		}
+	}
 	var (
 		c   Candidate
 		err error
 	)
 	switch spec.Typ {
 	case CandidateTypeServerReflexive:
-		c, err = NewCandidateServerReflexive(&CandidateServerReflexiveConfig{Network: "udp", Address: ap.Addr().String(), Port: int(ap.Port()), Component: 1, Priority: spec.Prio, RelAddr: "0.0.0.0", RelPort: 9})
+		c, err = NewCandidateServerReflexive(&CandidateServerReflexiveConfig{Network: "udp", Address: addrText, Port: int(ap.Port()), Component: 1, Priority: spec.Prio, RelAddr: "0.0.0.0", RelPort: 9})
 	case CandidateTypeRelay:
-		c, err = NewCandidateRelay(&CandidateRelayConfig{Network: "udp", Address: ap.Addr().String(), Port: int(ap.Port()), Component: 1, Priority: spec.Prio, RelAddr: "192.0.2.9", RelPort: 9})
+		c, err = NewCandidateRelay(&CandidateRelayConfig{Network: "udp", Address: addrText, Port: int(ap.Port()), Component: 1, Priority: spec.Prio, RelAddr: "192.0.2.9", RelPort: 9})
 	case CandidateTypePeerReflexive:
-		c, err = NewCandidatePeerReflexive(&CandidatePeerReflexiveConfig{Network: "udp", Address: ap.Addr().String(), Port: int(ap.Port()), Component: 1, Priority: spec.Prio, RelAddr: "0.0.0.0", RelPort: 9})
+		c, err = NewCandidatePeerReflexive(&CandidatePeerReflexiveConfig{Network: "udp", Address: addrText, Port: int(ap.Port()), Component: 1, Priority: spec.Prio, RelAddr: "0.0.0.0", RelPort: 9})
 	default:
-		c, err = NewCandidateHost(&CandidateHostConfig{Network: "udp", Address: ap.Addr().String(), Port: int(ap.Port()), Component: 1, Priority: spec.Prio})
+		c, err = NewCandidateHost(&CandidateHostConfig{Network: "udp", Address: addrText, Port: int(ap.Port()), Component: 1, Priority: spec.Prio})
 	}
 	if err != nil {
 		panic(err)
